@@ -31,8 +31,8 @@ func TestProp(t *testing.T) {
 		um := rapid.IntRange(0, 2).Draw(rt, "usermethods") == 0
 		s := e2.DrawStructural(rt, e2.StructOpt{
 			Env:    progen.EnvOpt{UserMethods: um, Avoid: c.ActiveSet()},
-			NTypes: 14, EnumChunks: true,
-			Roles:  []string{"equal", "equalc", "ctx"},
+			NTypes: 14, EnumChunks: true, Carriers: true,
+			Roles: []string{"equal", "equalc", "ctx"},
 		})
 		e2.RunCase(c, rt, s, e2.Options{Property: prop, Harness: "c02", Checks: checks(c)})
 	})
